@@ -387,8 +387,16 @@ def table_cases(draw, M=256, kind='table', N=0):
         st.sampled_from([0.0, 1.0, 0.5, 0.1, 0.3, 1 / 3, 0.07, 0.999, 1e-4]),
         st.floats(0.0, 1.0), st.floats(0.001, 0.3)))
     name, kw = draw(st.sampled_from(domain.deformations(cls)))
-    case = {'kind': kind, 'cls': cls, 'size': list(size), 'direction': [float(x) for x in r],
-            'error_rate': float(p), 'deformation': name, 'kwargs': kw,
+    direction = domain.as_given(draw, r)
+    rate = domain.as_given(draw, [p])[0]
+    if draw(st.integers(0, 9)) == 0:
+        # values exactly as a hand-written input file has them: integer 0 / 1
+        # next to fractions
+        direction = list(draw(st.sampled_from([(0, 0.5, 0.5), (0.5, 0, 0.5), (0.5, 0.5, 0),
+                                               (0, 0.25, 0.75), (1, 0, 0), (0, 0, 1)])))
+        rate = draw(st.sampled_from([1, 0, 1, 0.5]))
+    case = {'kind': kind, 'cls': cls, 'size': list(size), 'direction': direction,
+            'error_rate': rate, 'deformation': name, 'kwargs': kw,
             'rseed': draw(st.integers(0, 2**30)), 'M': M}
     if kind == 'chi2':
         case['N'] = N
